@@ -1,11 +1,12 @@
 #!/usr/bin/env python3
-"""eval_seeded.py <PROP> <agent_out_dir> [budget]
+"""eval_seeded.py <PROP> <agent_out_dir> [budget] [tag]
 For every mN under the sub-agent's output directory: confirm in a scratch worktree that the patch applies, builds,
 keeps /repo's suite at baseline, and that the demonstration fails with it and passes without; then apply it to /repo,
 run the property's quick check, undo. Keeps confirmed ones under /verif/seeded/<PROP>-mN/ with meta.json."""
 import json, os, re, shutil, subprocess, sys
 prop, src = sys.argv[1], sys.argv[2]
 budget = sys.argv[3] if len(sys.argv) > 3 else "8"
+tag = sys.argv[4] if len(sys.argv) > 4 else ""
 V = "/verif"
 def sh(cmd, cwd=None, timeout=1800):
     p = subprocess.run(cmd, shell=True, cwd=cwd, text=True, stdout=subprocess.PIPE, stderr=subprocess.STDOUT, timeout=timeout)
@@ -70,7 +71,7 @@ try:
         if not confirmed:
             print("   baseline:", out_base[-300:].replace("\n", " | "), " demo(clean):", out_clean[-300:].replace("\n", " | "))
         if confirmed:
-            dst = os.path.join(V, "seeded", "%s-%s" % (prop, m))
+            dst = os.path.join(V, "seeded", "%s-%s%s" % (prop, tag, m))
             os.makedirs(dst, exist_ok=True)
             shutil.copy(patch, os.path.join(dst, "patch.diff"))
             shutil.copy(demo, os.path.join(dst, "demo_test.go.txt"))
